@@ -211,11 +211,44 @@ impl AsyncRead for PipeReader {
 // the workload
 
 fn apply_edits(name: &str, edits: &[Edit]) -> (BytesStart<'static>, String, Vec<(String, String)>) {
-    let mut e = BytesStart::new(name.to_string());
+    // a tag that already carries attributes when the edits begin: built from raw content,
+    // handed out by a reader, or borrowed from a template (the buffer is Cow::Borrowed then)
+    let esc = |v: &str| v.replace('&', "&amp;").replace('<', "&lt;").replace('>', "&gt;").replace('"', "&quot;");
+    let (content, init): (String, Vec<(String, String)>) = match edits.first() {
+        Some(Edit::Origin { init, .. }) => {
+            let mut c = name.to_string();
+            for (k, v) in init {
+                c.push_str(&format!(" {}=\"{}\"", k, esc(v)));
+            }
+            (c, init.clone())
+        }
+        _ => (name.to_string(), vec![]),
+    };
+    let doc = format!("<{}>", content);
+    let mut template = BytesStart::new(name.to_string());
+    let mut rd = quick_xml::Reader::from_str(&doc);
+    let mut e: BytesStart = match edits.first() {
+        Some(Edit::Origin { kind, .. }) => match kind % 4 {
+            0 => BytesStart::from_content(content.clone(), name.len()),
+            1 => BytesStart::from_content(content.as_str(), name.len()),
+            2 => match rd.read_event() {
+                Ok(Event::Start(s)) if s.name().as_ref() == name.as_bytes() => s,
+                _ => BytesStart::from_content(content.as_str(), name.len()),
+            },
+            _ => {
+                for (k, v) in &init {
+                    template.push_attribute((k.as_str(), v.as_str()));
+                }
+                template.borrow()
+            }
+        },
+        _ => BytesStart::new(name.to_string()),
+    };
     let mut nm = name.to_string();
-    let mut attrs: Vec<(String, String)> = vec![];
+    let mut attrs: Vec<(String, String)> = init.clone();
     for ed in edits {
         match ed {
+            Edit::Origin { .. } => {}
             Edit::Push(k, v) => {
                 e.push_attribute((k.as_str(), v.as_str()));
                 attrs.push((k.clone(), v.clone()));
@@ -523,6 +556,16 @@ fn gen_build(rng: &mut Rng, open: &mut Vec<String>) -> Build {
         0..=3 => {
             let name = rng.pick(P_NAMES).to_string();
             let mut edits = vec![];
+            if rng.chance(1, 3) {
+                let mut init: Vec<(String, String)> = vec![];
+                for _ in 0..rng.below(3) {
+                    let (k, v) = kv(rng);
+                    if !init.iter().any(|(ek, _)| *ek == k) {
+                        init.push((k, v));
+                    }
+                }
+                edits.push(Edit::Origin { kind: rng.below(4) as u8, init });
+            }
             for _ in 0..rng.below(4) {
                 edits.push(match rng.below(8) {
                     0 | 1 => {
